@@ -69,13 +69,15 @@ IntOp(op, a, b, st) ==
     [] OTHER     -> Err(st)                          \* ~= on numbers
 
 FloatOp(op, a, b, st) ==
-  CASE op = "+"  -> Ok(FAdd(a, b), st)
-    [] op = "-"  -> Ok(FSub(a, b), st)
+  CASE op = "+"  -> IF AddSafe(a, b) THEN Ok(FAdd(a, b), st) ELSE Unspec(st)
+    [] op = "-"  -> IF AddSafe(a, b) THEN Ok(FSub(a, b), st) ELSE Unspec(st)
     \* a zero product / quotient with a negative operand is IEEE's negative zero, which this fixed-point model
     \* cannot carry (it prints as -0 and keeps its sign through later products): left unspecified
-    [] op = "*"  -> IF FMul(a, b).num = 0 /\ (a.num < 0 \/ b.num < 0) THEN Unspec(st) ELSE Ok(FMul(a, b), st)
+    [] op = "*"  -> IF ~MulSafe(a, b) THEN Unspec(st)
+                    ELSE IF FMul(a, b).num = 0 /\ (a.num < 0 \/ b.num < 0) THEN Unspec(st) ELSE Ok(FMul(a, b), st)
     [] op = "/"  -> IF b.num = 0 THEN Err(st) ELSE IF a.num = 0 /\ b.num < 0 THEN Unspec(st)
-                    ELSE IF FDivExact(b) THEN Ok(FDiv(a, b), st) ELSE Unspec(st)
+                    ELSE IF FDivExact(b) /\ DivSafe(a, b) THEN Ok(FDiv(a, b), st) ELSE Unspec(st)
+    [] op \in {"<", ">", "<=", ">=", "==", "!="} /\ ~AlignSafe(a, b) -> Unspec(st)
     [] op = "<"  -> Ok(B(FLt(a, b)), st)
     [] op = ">"  -> Ok(B(FLt(b, a)), st)
     [] op = "<=" -> Ok(B(~FLt(b, a)), st)
